@@ -38,8 +38,15 @@ Definition align_padding_with (guard euclid : bool) (cap : option Z) (pc align :
       else SOk n.
 Definition align_padding : Z -> Z -> site Z := align_padding_with align_guard_positive align_rem_euclid align_cap.
 
-(* ---- Token::Loop: `for index in 0..loop_count`: the number of iterations; no diagnostic, no bound ---- *)
+(* ---- Token::Loop: `for index in 0..loop_count`, after the budget check: `used` = iterations already started in this
+   pass by all loops together; result = the new count of started iterations (the loop then runs max 0 count times) ---- *)
+Definition diag_loop_budget : nat := 9%nat.
 Definition loop_iterations (count : Z) : Z := Z.max 0 count.
+Definition loop_enter (used count : Z) : site Z :=
+  match loop_count_limit with
+  | Some limit => if limit - used <? count then SDiag diag_loop_budget else SOk (used + loop_iterations count)
+  | None => SOk (used + loop_iterations count)
+  end.
 
 (* ---- Identifier::new and the names that reach it from strings ---- *)
 Definition has_period (s : list N) : bool := existsb (N.eqb 46) s.
@@ -56,6 +63,10 @@ Definition pc_from_i64 (v : Z) : Z := as_usize v.                   (* `* = v`, 
 Definition diag_pc_out_of_range : nat := 8%nat.
 Definition address_check (v : Z) : site Z :=
   if pc_values_checked && negb ((0 <=? v) && (v <=? pc_limit)) then SDiag diag_pc_out_of_range else SOk (pc_from_i64 v).
+(* the invariant the range checks establish for the pc of a segment (initial, target): inside 0..pc_limit, and the
+   relocated pc is not negative *)
+Definition pc_ok (pc initial target : Z) : Prop :=
+  0 <= pc <= pc_limit /\ 0 <= initial <= pc_limit /\ 0 <= target <= pc_limit /\ 0 <= pc + (target - initial).
 (* `* = v` with the current segment's target offset (None: no current segment): the new pc, if one is set *)
 Definition set_pc_site (v : Z) (offset : option Z) : site (option Z) :=
   match address_check v with
@@ -191,8 +202,36 @@ Definition import_depth (g : list (list nat)) : depth :=
 (* macros: node 0 = the top level; node i > 0 = macro i; edges = invocations (in the body, in taken branches) *)
 Definition macro_depth (g : list (list nat)) : depth :=
   if cyclic_from g 0%nat then
-    match macro_depth_limit with Some _ => CycleReported | None => Unbounded end
+    match nesting_depth_limit, macro_depth_limit with
+    | None, None => Unbounded
+    | _, _ => CycleReported           (* the 65th nested invocation is a diagnostic at that invocation *)
+    end
   else Depth (acyclic_depth (S (length g)) g 0%nat).
+
+(* ---- the recursion guards: emit_token (code generator) and `nested` (parser) count the containers around a token /
+   a text and refuse to descend past the limit ---- *)
+Definition diag_nested_too_deep : nat := 10%nat.
+(* result: the depth at which the contents are processed *)
+Definition guard_enter (limit : option nat) (depth : nat) : site nat :=
+  match limit with
+  | Some m => if Nat.leb m depth then SDiag diag_nested_too_deep else SOk (S depth)
+  | None => SOk (S depth)
+  end.
+Definition codegen_enter : nat -> site nat := guard_enter nesting_depth_limit.
+(* the parser's guard increments first and compares afterwards: same accepted depths *)
+Definition parser_enter : nat -> site nat := guard_enter parser_nesting_limit.
+
+(* how often the innermost text of n nested parentheses / argument lists is parsed when the parse fails (worst case):
+   every level that tries the same text twice doubles it *)
+Fixpoint parse_attempts (retries_per_level : nat) (n : nat) : nat :=
+  match n with O => 1%nat | S k => (retries_per_level * parse_attempts retries_per_level k)%nat end.
+Definition factor_attempts_per_level : nat := if factor_retry_guarded then 1%nat else 2%nat.
+Definition arg_list_attempts_per_level : nat := if arg_list_items_parsed_once then 1%nat else 2%nat.
+
+(* a call of a function from within the arguments of a call of the same function: with a lock around the callback the
+   second `lock()` never returns *)
+Inductive call_result := CallReturns | CallDeadlocks.
+Definition nested_call_of_same_function : call_result := if function_callbacks_locked then CallDeadlocks else CallReturns.
 
 (* ---- with_dummy_segment: the set of segments as a count of `$dummy` entries; nested use ---- *)
 (* after an inner with_dummy_segment returns inside an outer one, is `$dummy` still there for the outer's next emit? *)
@@ -203,21 +242,14 @@ Definition emit_after_nested_dummy : site unit := if dummy_present_after_nested 
 Definition diag_bank_size_negative : nat := 6%nat.
 Definition diag_bank_size_mismatch : nat := 7%nat.
 Definition bank_padding (size len : Z) (has_fill : bool) : site Z :=
-  if size <? 0 then SDiag diag_bank_size_negative
+  if (size <? 0) || (match bank_size_limit with Some m => m <? size | None => false end) then SDiag diag_bank_size_negative
   else if len <? size then (if has_fill then SOk (size - len) else SDiag diag_bank_size_mismatch)
   else if size <? len then SDiag diag_bank_size_mismatch
   else SOk 0.
 
-(* ---- Known_* classes: the inputs on which the current source still violates C06 ---- *)
-Definition huge_loop_threshold : Z := 1048576.
-Definition Known_loop_count_huge (count : Z) : bool := huge_loop_threshold <? count.
-(* the invariant the range checks establish for the pc of a segment (initial, target): inside 0..pc_limit, and the
-   relocated pc is not negative *)
-Definition pc_ok (pc initial target : Z) : Prop :=
-  0 <= pc <= pc_limit /\ 0 <= initial <= pc_limit /\ 0 <= target <= pc_limit /\ 0 <= pc + (target - initial).
-Definition Known_bank_size_huge (size : Z) : bool := 1073741824 <? size.        (* more than 2^30 bytes of padding in memory *)
-Definition Known_macro_recursion (g : list (list nat)) : bool := cyclic_from g 0%nat.
-(* brace / parenthesis nesting of a text: recursion depth of the recursive-descent parser, codegen and formatter *)
+(* (no Known_* classes are left: every site above is total on the current source) *)
+
+(* brace / parenthesis nesting of a text: what the parser's guard counts *)
 Fixpoint nesting_depth (cur best : nat) (s : list N) : nat :=
   match s with
   | [] => best
@@ -225,5 +257,3 @@ Fixpoint nesting_depth (cur best : nat) (s : list N) : nat :=
               else if (N.eqb c 125 || N.eqb c 41)%bool then nesting_depth (Nat.pred cur) best r
               else nesting_depth cur best r
   end.
-Definition nesting_limit : nat := 100%nat.
-Definition Known_deep_nesting (s : list N) : bool := Nat.ltb nesting_limit (nesting_depth 0 0 s).
